@@ -202,6 +202,29 @@ def _check_crit(case, **flags):
     return None
 
 
+def _check_crit2d(case):
+    """Criteria functions over two-dimensional ranges of equal shape: cell (i, j) of the tested range selects cell (i, j) of
+    the summed range."""
+    from formulas.tokens.operand import DIV
+    _, grid, crit, sums = case
+    F = _F()
+    pred = _crit(crit)
+    sel = [(i, j) for i, row in enumerate(grid) for j, v in enumerate(row) if pred(v)]
+    nums = [sums[i][j] for i, j in sel if isinstance(sums[i][j], (int, float)) and not isinstance(sums[i][j], bool)]
+    g, sm = _A([list(r) for r in grid]), _A([list(r) for r in sums])
+    got_n = _val(F['COUNTIF'](g, crit))
+    if not _same(got_n, len(sel)):
+        return 'COUNTIF(%r, %r) = %r, expected %r' % (grid, crit, got_n, len(sel))
+    got_s = _val(F['SUMIF'](g, crit, sm))
+    if not _same(got_s, float(sum(nums))):
+        return 'SUMIF(%r, %r, %r) = %r, expected %r' % (grid, crit, sums, got_s, float(sum(nums)))
+    got_a = _val(F['AVERAGEIF'](g, crit, sm))
+    want_a = (sum(nums) / len(nums)) if nums else DIV
+    if not _same(got_a, want_a):
+        return 'AVERAGEIF(%r, %r, %r) = %r, expected %r' % (grid, crit, sums, got_a, want_a)
+    return None
+
+
 def _asc(rng, n, kind):
     if kind == 'num':
         xs = sorted(rng.sample(range(-5, 30), n))
@@ -266,11 +289,18 @@ def _cases(tier, rng):
         cells = [rng.choice([1, 2, 2, 3.5, -1, 'a', 'A', 'b', 'ab', 'cb', 'a*', True, False, sh.EMPTY]) for _ in range(k)]
         sums = [rng.choice([1, 2, 10, 0.5, 'x', sh.EMPTY, -4]) for _ in range(k)]
         out.append(('crit', cells, rng.choice(crits), sums))
+    for _ in range(n // 5):
+        nr, nc = rng.choice([(2, 2), (3, 3), (2, 3), (3, 2), (4, 4), (1, 3), (3, 1)])
+        grid = tuple(tuple(rng.choice([1, 2, 3.5, -1, 'a', 'b', 5, 0]) for _ in range(nc)) for _ in range(nr))
+        sums = tuple(tuple(rng.choice([1, 2, 10, 0.5, 20, -4, 40]) for _ in range(nc)) for _ in range(nr))
+        out.append(('crit2d', grid, rng.choice([2, '>1', '>=2', '<2', '<=2', '=b', 'a', '>0']), sums))
     return out
 
 
 def _check(case):
     try:
+        if case[0] == 'crit2d':
+            return _check_crit2d(case)
         if case[0] == 'match':
             return _check_match(case)
         if case[0] == 'index':
@@ -300,8 +330,8 @@ def _classify(case, detail):
 BOUNDED = [
     Stage('B1:lookup-and-criteria-functions', 'C19', _cases, _check,
           'random key vectors of length 1..6 (strictly ascending / descending for approximate MATCH, mixed-type with duplicates for exact '
-          'MATCH incl. wildcards), tables up to 6x6 for INDEX / VLOOKUP / HLOOKUP / LOOKUP vs INDEX(MATCH), COUNTIF/SUMIF/AVERAGEIF with 19 '
-          'criteria forms; 1500 (quick) / 150000 (thorough) cases per family', classify=_classify, max_report=100000),
+          'MATCH incl. wildcards), tables up to 6x6 for INDEX / VLOOKUP / HLOOKUP / LOOKUP vs INDEX(MATCH), COUNTIF/SUMIF/AVERAGEIF with 30 criteria forms on vectors and on two-dimensional ranges of equal shape; '
+          '1500 (quick) / 150000 (thorough) cases per family', classify=_classify, max_report=100000),
 ]
 
 PROPERTIES = {
